@@ -269,7 +269,7 @@ func TestPerValueCap(t *testing.T) {
 			}
 		}
 		n := rapid.IntRange(1, 40).Draw(t, "n")
-		added := 0
+		added, retuned := 0, 0
 		for i := 0; i < n; i++ {
 			if len(lives) == 0 && len(ms) > 0 && added < 2 && rapid.IntRange(0, 7).Draw(t, "addRule") == 0 {
 				// nothing is in flight: a further rule is added for a resource that has one (same selector kind and capacity, so the
@@ -286,6 +286,27 @@ func TestPerValueCap(t *testing.T) {
 				load(t, ms)
 				c.Op("rule %s added (res=%s idx=%d key=%q T=%d) with nothing in flight", nr.ID, nr.Resource, nr.ParamIndex, nr.ParamKey, nr.Threshold)
 				c.Class("rule-added-by-a-reload-at-quiescence")
+			}
+			if len(lives) > 0 && len(ms) > 0 && retuned < 2 && rapid.IntRange(0, 9).Draw(t, "retuneRule") == 0 {
+				// entries are in flight: one rule is reloaded with another general threshold, everything else unchanged. The changed
+				// rule takes over the per-value counters of the old one: entries that were in flight still count, and still give
+				// their unit back when they exit.
+				// (only a rule that is alone on its resource: with statistic-compatible siblings the loader hands the first compatible
+				// old statistic to the first changed rule, whichever rule it belonged to - C14, known finding P30)
+				m := ms[rapid.IntRange(0, len(ms)-1).Draw(t, "which")]
+				alone := true
+				for _, o := range ms {
+					if o != m && o.r.Resource == m.r.Resource {
+						alone = false
+					}
+				}
+				if alone {
+					retuned++
+					m.r.Threshold = int64(rapid.IntRange(minT, 4).Draw(t, "T2"))
+					load(t, ms)
+					c.Op("rule %s reloaded with threshold %d while %d entries are in flight", m.r.ID, m.r.Threshold, len(lives))
+					c.Class("threshold-changed-by-a-reload-with-entries-in-flight")
+				}
 			}
 			if rapid.IntRange(0, 4).Draw(t, "op") < 3 {
 				res := rapid.SampledFrom([]string{"a", "b"}).Draw(t, "res")
